@@ -328,7 +328,7 @@ def run(prog: Program, res: Result, tier: str) -> None:
     # R3 dispatch exhaustiveness + R4 guards, for both wrappers
     from ..cfg import simple_paths
     from ..pathcond import path_conditions, rejection, split
-    from ..normalform import canon
+    from ..normalform import strip_ordinals, canon
     for wname, prefix in (("unpack", "unpack"), ("pack", "pack")):
         w = prog.func(BMOD, wname)
         flow = flow_of(w)
@@ -424,14 +424,29 @@ def run(prog: Program, res: Result, tier: str) -> None:
                     ((isinstance(e.ops[0], ast.Eq) and pol) or (isinstance(e.ops[0], ast.NotEq) and not pol))
             return pred
 
-        def order_letter(e, pol):
-            return isinstance(e, ast.Compare) and len(e.ops) == 1 and norm(e.left) in ("bitorder[0]", "bitorder[:1]") and \
-                ((isinstance(e.ops[0], ast.In) and pol) or (isinstance(e.ops[0], ast.NotIn) and not pol))
+        def order_exact(e, pol):
+            """`bitorder in {<whole words>}`: the WHOLE string is compared (a test of bitorder[0] lets 'bogus' through as big),
+            and every accepted spelling selects, through its first letter, the kernel of that name."""
+            if not (isinstance(e, ast.Compare) and len(e.ops) == 1 and norm(e.left) == "bitorder" and
+                    ((isinstance(e.ops[0], ast.In) and pol) or (isinstance(e.ops[0], ast.NotIn) and not pol))):
+                return False
+            try:
+                vals = set(ast.literal_eval(e.comparators[0]))
+            except Exception:
+                return False
+            return {"big", "little"} <= vals <= {"big", "little", "b", "l"}
 
-        def order_given(e, pol):
-            return norm(e) == "bitorder" and pol
+        def not_ragged(e, pol):
+            """pack only: the input is a whole number of bytes (otherwise the floor in the output length drops samples)."""
+            if not (isinstance(e, ast.Compare) and len(e.ops) == 1 and isinstance(e.ops[0], (ast.Eq, ast.NotEq))):
+                return False
+            sides = [strip_ordinals(canon(e.left)), strip_ordinals(canon(e.comparators[0]))]
+            rems = {strip_ordinals(canon(f"{arr_p}.size % (8 // int(nbits))")), strip_ordinals(canon(f"len({arr_p}) % (8 // int(nbits))"))}
+            return "0" in sides and bool(set(sides) & rems) and (isinstance(e.ops[0], ast.Eq) == pol)
 
-        wanted = {"dtype": [is_u8(arr_p)], "nbits": [in_set("nbits")], "bitorder": [order_given, order_letter]}
+        wanted = {"dtype": [is_u8(arr_p)], "nbits": [in_set("nbits")], "bitorder": [order_exact]}
+        if prefix == "pack":
+            wanted["ragged"] = [not_ragged]
         for gname, preds in wanted.items():
             key = f"{wname}:{gname}"
             facts = [pc.truth(kc, p, expanded=True) for p in preds]
@@ -443,8 +458,9 @@ def run(prog: Program, res: Result, tier: str) -> None:
                 res.bad("R4", w, kc, f"{wname}: guard on {gname} does not protect the kernel call (not dominating or not raising ValueError)", key=key)
         # size: on every path to the kernel the buffer is either allocated here with the exact element count (uint8), or its size was
         # compared (==) with that count
-        count_src = f"{arr_p}.size * (8 // nbits)" if prefix == "unpack" else f"{arr_p}.size // (8 // nbits)"
-        want_count = canon(count_src)
+        # the factor is computed from int(nbits): with a numpy integer depth `8 // nbits` has that width and the product wraps
+        count_src = f"{arr_p}.size * (8 // int(nbits))" if prefix == "unpack" else f"{arr_p}.size // (8 // int(nbits))"
+        want_count = strip_ordinals(canon(count_src))
         key = f"{wname}:size"
         allocs = [s_ for s_ in body_walk(w.node) if isinstance(s_, ast.Assign) and isinstance(s_.value, ast.Call)
                   and dotted(s_.value.func) in ("np.zeros", "np.empty") and len(s_.targets) == 1 and norm(s_.targets[0]) == (buf_p or "?")]
@@ -457,23 +473,28 @@ def run(prog: Program, res: Result, tier: str) -> None:
                 kw = {k.arg: k.value for k in a_.keywords}
                 shape = kw.get("shape") or (a_.args[0] if a_.args else None)
                 dt = kw.get("dtype") or (a_.args[1] if len(a_.args) > 1 else None)
-                if shape is None or canon(flow.expand(shape, cfg.node_for(alloc_here[-1]))) != want_count or dt is None or norm(dt) not in ("np.uint8", "'uint8'"):
-                    ok_size, why = False, "the default buffer is not np.uint8 of exactly the element count"
+                if shape is None or strip_ordinals(canon(flow.expand(shape, cfg.node_for(alloc_here[-1])))) != want_count or dt is None or norm(dt) not in ("np.uint8", "'uint8'"):
+                    ok_size, why = False, "the default buffer is not np.uint8 of exactly the element count (8 // int(nbits) per byte)"
                 continue
             checked = False
+            typed_buf = False
             for a_n, b_n in zip(path, path[1:]):
                 st_ = cfg.ast[a_n]
                 lab = cfg.edge_label(a_n, b_n)
                 if cfg.kind[a_n] == "test" and isinstance(st_, ast.If) and lab in ("true", "false"):
                     for e_, pol_ in split(st_.test, lab == "true"):
                         if isinstance(e_, ast.Compare) and len(e_.ops) == 1 and ((isinstance(e_.ops[0], ast.Eq) and pol_) or (isinstance(e_.ops[0], ast.NotEq) and not pol_)):
-                            l_, r_ = canon(flow.expand(e_.left, a_n)), canon(flow.expand(e_.comparators[0], a_n))
+                            l_, r_ = strip_ordinals(canon(flow.expand(e_.left, a_n))), strip_ordinals(canon(flow.expand(e_.comparators[0], a_n)))
                             if {l_, r_} == {f"{buf_p}.size", want_count}:
                                 checked = True
+                        if buf_p is not None and is_u8(buf_p)(e_, pol_):
+                            typed_buf = True
             if not checked:
                 ok_size, why = False, "a supplied buffer reaches the kernel without an == test of its size against the element count"
+            elif not typed_buf:
+                ok_size, why = False, "a supplied buffer reaches the kernel without its dtype being checked to be uint8 (numba then raises TypeError, not ValueError)"
         if ok_size:
-            res.ok("R4", w, kc, "buffer size is checked with == against the exact element count on the supplied-buffer path and "
+            res.ok("R4", w, kc, "a supplied buffer is checked to be uint8 and to have (==) the exact element count; "
                    "the default path allocates that same count", key=key)
         else:
             res.bad("R4", w, kc, f"{wname}: {why}", key=key)
@@ -650,23 +671,38 @@ MUTANTS = [
     {"id": "c03-size-guard-loose", "file": Bf, "expect": "C03.R4",
      "old": "    elif unpacked.size != array.size * bitfact:", "new": "    elif unpacked.size < array.size * bitfact:"},
     {"id": "c03-nbits-guard-8", "file": Bf, "expect": "C03.R3",
-     "old": "    if nbits not in {1, 2, 4}:\n        msg = f\"nbits must be 1, 2, or 4, got {nbits}\"\n        raise ValueError(msg)\n    if (not bitorder) or (bitorder[0] not in {\"b\", \"l\"}):\n        msg = f\"bitorder must be 'big' or 'little', got {bitorder}\"\n        raise ValueError(msg)\n    bitorder_str = \"big\" if bitorder[0] == \"b\" else \"little\"\n    bitfact = 8 // nbits\n    if packed is None:",
-     "new": "    if nbits not in {1, 2, 4, 8}:\n        msg = f\"nbits must be 1, 2, or 4, got {nbits}\"\n        raise ValueError(msg)\n    if (not bitorder) or (bitorder[0] not in {\"b\", \"l\"}):\n        msg = f\"bitorder must be 'big' or 'little', got {bitorder}\"\n        raise ValueError(msg)\n    bitorder_str = \"big\" if bitorder[0] == \"b\" else \"little\"\n    bitfact = 8 // nbits\n    if packed is None:"},
+     "old": "    if nbits not in {1, 2, 4}:\n        msg = f\"nbits must be 1, 2, or 4, got {nbits}\"\n        raise ValueError(msg)\n    if not isinstance(bitorder, str) or bitorder not in {\"big\", \"little\", \"b\", \"l\"}:\n        msg = f\"bitorder must be 'big' or 'little', got {bitorder}\"\n        raise ValueError(msg)\n    bitorder_str = \"big\" if bitorder[0] == \"b\" else \"little\"\n    # A numpy integer depth would make the size arithmetic wrap in its own width\n    bitfact = 8 // int(nbits)\n    if array.size % bitfact",
+     "new": "    if nbits not in {1, 2, 4, 8}:\n        msg = f\"nbits must be 1, 2, or 4, got {nbits}\"\n        raise ValueError(msg)\n    if not isinstance(bitorder, str) or bitorder not in {\"big\", \"little\", \"b\", \"l\"}:\n        msg = f\"bitorder must be 'big' or 'little', got {bitorder}\"\n        raise ValueError(msg)\n    bitorder_str = \"big\" if bitorder[0] == \"b\" else \"little\"\n    # A numpy integer depth would make the size arithmetic wrap in its own width\n    bitfact = 8 // int(nbits)\n    if array.size % bitfact"},
     {"id": "c03-default-order-1bit-big", "file": Bf, "expect": "C03.R5",
      "old": "        1: \"little\",\n        2: \"big\",", "new": "        1: \"big\",\n        2: \"big\","},
     {"id": "c03-writer-hardcoded-order", "file": "sigpyproc/io/fileio.py", "expect": "C03.R5",
      "old": "packed = pack(arr, self.bitsinfo.nbits, bitorder=self.bitsinfo.bitorder)", "new": "packed = pack(arr, self.bitsinfo.nbits, bitorder=\"big\")"},
     {"id": "c03-dtype-guard-dropped", "file": Bf, "expect": "C03.R4",
-     "old": "    if array.dtype != np.uint8:\n        msg = f\"Input array must be uint8, got {array.dtype}\"\n        raise ValueError(msg)\n    if nbits not in {1, 2, 4}:\n        msg = f\"nbits must be 1, 2, or 4, got {nbits}\"\n        raise ValueError(msg)\n    if (not bitorder) or (bitorder[0] not in {\"b\", \"l\"}):\n        msg = f\"bitorder must be 'big' or 'little', got {bitorder}\"\n        raise ValueError(msg)\n    bitorder_str = \"big\" if bitorder[0] == \"b\" else \"little\"\n    bitfact = 8 // nbits\n    if unpacked is None:",
-     "new": "    if nbits not in {1, 2, 4}:\n        msg = f\"nbits must be 1, 2, or 4, got {nbits}\"\n        raise ValueError(msg)\n    if (not bitorder) or (bitorder[0] not in {\"b\", \"l\"}):\n        msg = f\"bitorder must be 'big' or 'little', got {bitorder}\"\n        raise ValueError(msg)\n    bitorder_str = \"big\" if bitorder[0] == \"b\" else \"little\"\n    bitfact = 8 // nbits\n    if unpacked is None:"},
+     "old": "    if array.dtype != np.uint8:\n        msg = f\"Input array must be uint8, got {array.dtype}\"\n        raise ValueError(msg)\n    if nbits not in {1, 2, 4}:\n        msg = f\"nbits must be 1, 2, or 4, got {nbits}\"\n        raise ValueError(msg)\n    if not isinstance(bitorder, str) or bitorder not in {\"big\", \"little\", \"b\", \"l\"}:\n        msg = f\"bitorder must be 'big' or 'little', got {bitorder}\"\n        raise ValueError(msg)\n    bitorder_str = \"big\" if bitorder[0] == \"b\" else \"little\"\n    # A numpy integer depth would make the size arithmetic wrap in its own width\n    bitfact = 8 // int(nbits)\n    if unpacked is None:",
+     "new": "    if nbits not in {1, 2, 4}:\n        msg = f\"nbits must be 1, 2, or 4, got {nbits}\"\n        raise ValueError(msg)\n    if not isinstance(bitorder, str) or bitorder not in {\"big\", \"little\", \"b\", \"l\"}:\n        msg = f\"bitorder must be 'big' or 'little', got {bitorder}\"\n        raise ValueError(msg)\n    bitorder_str = \"big\" if bitorder[0] == \"b\" else \"little\"\n    # A numpy integer depth would make the size arithmetic wrap in its own width\n    bitfact = 8 // int(nbits)\n    if unpacked is None:"},
 ]
 MUTANTS += [
     {"id": "c03-pack-wrong-ragged-guard", "file": Bf, "expect": "C03.R4",
-     "old": "    bitfact = 8 // nbits\n    if packed is None:", "new": "    bitfact = 8 // nbits\n    if array.size % nbits != 0:\n        msg = \"ragged\"\n        raise ValueError(msg)\n    if packed is None:"},
+     "old": "    if array.size % bitfact != 0:\n", "new": "    if array.size % nbits != 0:\n"},
+    {"id": "c03-revert-F32-order-prefix", "file": Bf, "expect": "C03.R4",
+     "old": "    if not isinstance(bitorder, str) or bitorder not in {\"big\", \"little\", \"b\", \"l\"}:\n        msg = f\"bitorder must be 'big' or 'little', got {bitorder}\"\n        raise ValueError(msg)\n    bitorder_str = \"big\" if bitorder[0] == \"b\" else \"little\"\n    # A numpy integer depth would make the size arithmetic wrap in its own width\n    bitfact = 8 // int(nbits)\n    if unpacked is None:",
+     "new": "    if (not bitorder) or (bitorder[0] not in {\"b\", \"l\"}):\n        msg = f\"bitorder must be 'big' or 'little', got {bitorder}\"\n        raise ValueError(msg)\n    bitorder_str = \"big\" if bitorder[0] == \"b\" else \"little\"\n    # A numpy integer depth would make the size arithmetic wrap in its own width\n    bitfact = 8 // int(nbits)\n    if unpacked is None:"},
+    {"id": "c03-revert-F32-ragged", "file": Bf, "expect": "C03.R4",
+     "old": "    if array.size % bitfact != 0:\n        msg = f\"Input size must be a multiple of {bitfact}, got {array.size}\"\n        raise ValueError(msg)\n", "new": ""},
+    {"id": "c03-revert-F32-buffer-dtype", "file": Bf, "expect": "C03.R4",
+     "old": "    elif unpacked.dtype != np.uint8:\n        msg = f\"Unpacking array must be uint8, got {unpacked.dtype}\"\n        raise ValueError(msg)\n", "new": ""},
+    {"id": "c03-revert-F33", "file": Bf, "expect": "C03.R4",
+     "old": "    bitfact = 8 // int(nbits)\n    if unpacked is None:", "new": "    bitfact = 8 // nbits\n    if unpacked is None:"},
+    {"id": "c03-order-accepts-more", "file": Bf, "expect": "C03.R4",
+     "old": "    if not isinstance(bitorder, str) or bitorder not in {\"big\", \"little\", \"b\", \"l\"}:\n        msg = f\"bitorder must be 'big' or 'little', got {bitorder}\"\n        raise ValueError(msg)\n    bitorder_str = \"big\" if bitorder[0] == \"b\" else \"little\"\n    # A numpy integer depth would make the size arithmetic wrap in its own width\n    bitfact = 8 // int(nbits)\n    if array.size % bitfact",
+     "new": "    if not isinstance(bitorder, str) or bitorder not in {\"big\", \"little\", \"b\", \"l\", \"both\"}:\n        msg = f\"bitorder must be 'big' or 'little', got {bitorder}\"\n        raise ValueError(msg)\n    bitorder_str = \"big\" if bitorder[0] == \"b\" else \"little\"\n    # A numpy integer depth would make the size arithmetic wrap in its own width\n    bitfact = 8 // int(nbits)\n    if packed"},
 ]
 TWINS = [
     {"id": "c03-twin-ragged-guard", "file": Bf,
-     "old": "    bitfact = 8 // nbits\n    if packed is None:", "new": "    bitfact = 8 // nbits\n    if array.size % bitfact != 0:\n        msg = \"ragged\"\n        raise ValueError(msg)\n    if packed is None:"},
+     "old": "    if array.size % bitfact != 0:\n", "new": "    if not (array.size % bitfact == 0):\n"},
+    {"id": "c03-twin-order-tuple", "file": Bf,
+     "old": "    if not isinstance(bitorder, str) or bitorder not in {\"big\", \"little\", \"b\", \"l\"}:\n        msg = f\"bitorder must be 'big' or 'little', got {bitorder}\"\n        raise ValueError(msg)\n    bitorder_str = \"big\" if bitorder[0] == \"b\" else \"little\"\n    # A numpy integer depth would make the size arithmetic wrap in its own width\n    bitfact = 8 // int(nbits)\n    if array.size % bitfact",
+     "new": "    if bitorder not in (\"big\", \"little\"):\n        msg = f\"bitorder must be 'big' or 'little', got {bitorder}\"\n        raise ValueError(msg)\n    bitorder_str = \"big\" if bitorder[0] == \"b\" else \"little\"\n    per_byte = 8 // int(nbits)\n    bitfact = per_byte\n    if array.size % bitfact"},
     {"id": "c03-twin-unroll", "file": K,
      "old": "        for jj in range(8):\n            unpacked[pos + jj] = (array[ii] >> jj) & 1",
      "new": "        byte = array[ii]\n        for jj in range(8):\n            unpacked[jj + pos] = (array[ii] >> jj) & 0x01"},
